@@ -1231,3 +1231,45 @@ Proof.
   destruct O as [O|[O|O]]; [contradiction | contradiction |].
   destruct (run g1 cfg orc false f1 input), (run g2 cfg orc false f2 input); try contradiction; reflexivity.
 Qed.
+
+(* ---------------------------------------------------------------- small witnesses *)
+(* Model: /r0/ | /r1/   against   Model: /r2/   where r2 matches like r0, else like r1 *)
+Definition g_c1 : grammar :=
+  mkGrammar [mk KSeq [1; 4] true; mk KChoice [2; 3] true; mk (KRegex 0) [] false; mk (KRegex 1) [] false;
+             mk KEOF [] false] 0 None.
+Definition g_c2 : grammar := mkGrammar [mk KSeq [1; 2] true; mk (KRegex 2) [] true; mk KEOF [] false] 0 None.
+Definition orc_ex (o p : nat) : option nat :=
+  match o with 0 => None | _ => if Nat.eqb p 0 then Some 1 else None end.
+
+Lemma witness_alts :
+  orc_nonempty [0; 1] orc_ex /\ orc_alts [(0, 1, 2)] orc_ex /\
+  peg_equiv_diffs_acc [0; 1] [(0, 1, 2)] [] g_c1 g_c2 = [] /\
+  peg_equiv_diffs [0; 1] [] g_c1 g_c2 <> [] /\
+  accepts (run g_c1 cfg0 orc_ex false 30 [98]%N) = true /\ accepts (run g_c2 cfg0 orc_ex false 30 [98]%N) = true /\
+  accepts (run g_c1 cfg0 orc_ex false 30 [98; 98]%N) = false /\ accepts (run g_c2 cfg0 orc_ex false 30 [98; 98]%N) = false.
+Proof.
+  split; [|split].
+  - intros o p _ H. unfold orc_ex in H. destruct o; [discriminate|]. destruct (Nat.eqb p 0); discriminate.
+  - intros o1 o2 o3 p [H|[]]. inversion H; subst. reflexivity.
+  - vm_compute. repeat split. discriminate.
+Qed.
+
+(* `(x ',')* x` and `x+[',']` differ AS NODES (after "x," the first fails, the second succeeds on "x"), although
+   the two grammars reject "x," alike: the checker rightly reports the pair; it can only be equal in context *)
+Definition g_t1 : grammar :=
+  mkGrammar [mk KSeq [1; 6] true; mk KSeq [2; 4] true; mk KStar [3] false; mk KSeq [4; 5] false;
+             mk (KStr [120]%N None) [] false; mk (KStr [44]%N None) [] false; mk KEOF [] false] 0 None.
+Definition g_t2 : grammar :=
+  mkGrammar [mk KSeq [1; 4] true; mkNode KPlus [2] (Some 3) false [] true false None None; mk (KStr [120]%N None) [] false;
+             mk (KStr [44]%N None) [] false; mk KEOF [] false] 0 None.
+
+Definition is_fail (o : out) : bool := match o with Fail _ => true | _ => false end.
+Definition ok_pos (o : out) : option nat := match o with Ok _ s => Some (pos s) | _ => None end.
+
+Lemma tail_form_differs :
+  peg_equiv_diffs_acc [] [] [] g_t1 g_t2 <> [] /\
+  is_fail (parse g_t1 [120; 44]%N no_orc false 40 1 false (init_st cfg0)) = true /\
+  ok_pos (parse g_t2 [120; 44]%N no_orc false 40 1 false (init_st cfg0)) = Some 1 /\
+  accepts (run g_t1 cfg0 no_orc false 40 [120; 44]%N) = false /\ accepts (run g_t2 cfg0 no_orc false 40 [120; 44]%N) = false /\
+  accepts (run g_t1 cfg0 no_orc false 40 [120; 44; 120]%N) = true /\ accepts (run g_t2 cfg0 no_orc false 40 [120; 44; 120]%N) = true.
+Proof. vm_compute. repeat split. discriminate. Qed.
